@@ -281,6 +281,10 @@ func checkC16Race(ix *index, add addFn) {
 			}
 		case "finalerr":
 			get(r.Conn).final = r
+		case "doneerrnil":
+			if c := get(r.Conn); !c.discCalled {
+				add("done-err", fmt.Sprintf("conn %d: a goroutine waiting on Done() found Err() == nil the moment Done() was closed (Disconnect was never called)", r.Conn), nil)
+			}
 		}
 	}
 	for k, c := range per {
